@@ -237,8 +237,17 @@ def removal(ctx, p, k, result_found, result_missing):
         ok_len = p.len_is(-1)
         ctx.req('OUT', ok_len, nm + ':hit', 'removing a present key must decrease len by exactly one', p)
         first = p.reads[0] if p.reads else None
-        ctx.req('OUT', first is not None and z.entails_eq(first[2], idx), nm + ':hit',
-                'the slot moved out first must be the slot whose key matched', p)
+        # the pair moved out first must be the pair whose key matched: read from its own slot, or from wherever
+        # a preceding exchange of slots has put it (the event records the content's origin)
+        def _is_victim(e):
+            if z.entails_eq(e[2], idx):
+                return True
+            c = e[3]
+            return (isinstance(c, tuple) and len(c) == 2
+                    and all(isinstance(x, tuple) and len(x) == 4 and x[0] == 'stored' and x[1] == p.mid
+                            and z.entails_eq(x[2], idx) and x[3] == f for f, x in enumerate(c)))
+        ctx.req('OUT', first is not None and _is_victim(first), nm + ':hit',
+                'the pair moved out first must be the pair whose key matched', p)
         # compaction: either h was the last slot, or the former last slot now sits at h
         if z.entails_eq(idx, last):
             ok = p.contents_are([])
@@ -879,7 +888,7 @@ def it_req(E, props, rule, ok, prim, what, it):
 
 def retain_iteration(props):
     """retain: an element is removed iff the user predicate answered false for it"""
-    def hook(E, body, key, st, seg):
+    def hook(E, body, key, st, seg, depth=0):
         it = Iteration(E, st, seg)
         calls = [e for e in it.ev('user') if e[1].endswith('FnMut::call_mut')]
         if not calls:
@@ -939,7 +948,7 @@ def retain_iteration(props):
 
 def bulk_iteration(props, pulled_by, key_of_item):
     """from_iter / extend / deserialisation: one key-keeping insert per pulled item"""
-    def hook(E, body, key, st, seg):
+    def hook(E, body, key, st, seg, depth=0):
         it = Iteration(E, st, seg)
         pulls = [e for e in seg if pulled_by(e)]
         if not pulls:
@@ -1001,7 +1010,7 @@ def _slot_sources(tag, acc=None):
 
 def clone_iteration(props):
     """Map::clone: per element exactly one clone of the key and one of the value, written to the same index"""
-    def hook(E, body, key, st, seg):
+    def hook(E, body, key, st, seg, depth=0):
         it = Iteration(E, st, seg)
         nm = body.name
         calls = [e for e in seg if e[0] in ('user', 'opaque') and e[1].endswith('Clone::clone')]
@@ -1068,10 +1077,33 @@ def _value_eq_answer(seg, X, h, Y, i, z):
 def _probe(E, st, seg):
     """what the lookup started in this segment found: (X, 'hit', h, probe tag) | (X, 'miss', None, probe tag) | None"""
     sl = [e for e in seg if e[0] == 'slice']
-    if not sl:
+    if sl:
+        X = sl[-1][1]
+        hits = [e for e in seg if e[0] == 'hit' and e[1] == X]
+    elif any(e[0] == 'loop' for e in seg):
+        # no slice of a live prefix was taken, but the segment contains an inner loop: a lookup written as an
+        # index loop.  Its steps are not in the log (a loop keeps the log of its first arrival); what it
+        # established is: a hit event, or the scan record of the container it went through.
+        # (A segment WITHOUT an inner loop is a single step of such a scan, not an iteration with a lookup.)
+        hits = [e for e in seg if e[0] == 'hit']
+        if hits:
+            X = hits[-1][1]
+            hits = [e for e in hits if e[1] == X]
+        else:
+            at = [e for e in seg if e[0] == 'at']
+            cands = [m for m, ms in st.maps.items() if not ms.dead and E.miss_complete(st, m) not in (None, ('<empty>',))]
+            empties = [m for m, ms in st.maps.items() if not ms.dead and not ms.phantom and ms.len0 is not None
+                       and E.miss_complete(st, m) == ('<empty>',)]
+            if len(cands) == 1:
+                X = cands[0]
+            elif at:
+                X = at[-1][1]
+            elif not cands and len(empties) == 1:
+                X = empties[0]      # the loop ended at once: the container it would have gone through is empty
+            else:
+                return None
+    else:
         return None
-    X = sl[-1][1]
-    hits = [e for e in seg if e[0] == 'hit' and e[1] == X]
     if hits:
         return X, 'hit', hits[-1][2], hits[-1][3]
     m = E.miss_complete(st, X)
@@ -1084,7 +1116,7 @@ def _probe(E, st, seg):
 
 def quantifier_iteration(mode):
     def mk(props):
-        def hook(E, body, key, st, seg):
+        def hook(E, body, key, st, seg, depth=0):
             pr = _probe(E, st, seg)
             if pr is None:
                 return
@@ -1345,7 +1377,7 @@ def h_filter_next(pol):
 def filter_iteration(pol, via_fold):
     """skipped elements of next() / every element of fold(): membership polarity and callback discipline"""
     def mk(props):
-        def hook(E, body, key, st, seg):
+        def hook(E, body, key, st, seg, depth=0):
             pr = _probe(E, st, seg)
             if pr is None:
                 return
@@ -1585,7 +1617,7 @@ def h_serialize(begin, entry):
 
 def serialize_iteration(entry, nargs):
     def mk(props):
-        def hook(E, body, key, st, seg):
+        def hook(E, body, key, st, seg, depth=0):
             calls = [e for e in seg if e[0] == 'user' and e[1].endswith('::' + entry)]
             if not calls:
                 return
@@ -1682,7 +1714,7 @@ def _request_eq(e):
 
 def precheck_iteration(props):
     """the overlap pre-check of get_disjoint_mut: the scan continues only while the compared requests differ"""
-    def hook(E, body, key, st, seg):
+    def hook(E, body, key, st, seg, depth=0):
         answers = [a for a in (_request_eq(e) for e in seg) if a is not None]
         if not answers:
             return
@@ -1836,6 +1868,12 @@ def bulk_source_ok(E, body, events):
 def _probe_of(E, st, seg, X):
     """outcome of the lookup in container X that was started in this segment"""
     idx = [i for i, e in enumerate(seg) if e[0] == 'slice' and e[1] == X]
+    if not idx and E.miss_complete(st, X) == ('<empty>',):
+        return 'miss', None, None       # nothing can be found in an empty container, looked up or not
+    if not idx:
+        if any(e[0] == 'loop' for e in seg) and (any(e[0] == 'hit' and e[1] == X for e in seg)
+                                                 or E.miss_complete(st, X) not in (None, ('<empty>',))):
+            idx = [0]      # an index-loop lookup: see _probe
     if not idx:
         return None
     rest = seg[idx[-1]:]
@@ -1852,7 +1890,7 @@ def _probe_of(E, st, seg, X):
 
 def sub_iteration(props):
     """&a - &b: an element of a is cloned into the result iff it was looked up in b and not found"""
-    def hook(E, body, key, st, seg):
+    def hook(E, body, key, st, seg, depth=0):
         operands = [m for m, ms in st.maps.items() if ms.borrowed and not ms.phantom and not ms.dead]
         fresh = [m for m, ms in st.maps.items() if ms.len0 is None and not ms.dead]
         if len(operands) != 2 or not fresh:
@@ -1880,6 +1918,10 @@ def sub_iteration(props):
                    '(lookup seen: %r)' % (pr,), it)
             return
         # no insertion in this iteration: an element that was skipped must have been found in the right operand
+        # (an iteration that took no element of an operand -- e.g. a step of the result's own insertion scan --
+        # has skipped nothing)
+        if not any(e[0] in ('adv', 'at') and e[1] in operands for e in seg):
+            return
         for R in operands:
             pr = _probe_of(E, st, seg, R)
             if pr is not None:
@@ -1961,7 +2003,7 @@ def iteration_hook_for(E, body):
         return None
     props, mk, _ = h
     fn = mk(set(props))
-    return lambda key, st, seg: fn(E, body, key, st, seg)
+    return lambda key, st, seg, depth=0: fn(E, body, key, st, seg, depth)
 
 
 def h_bulk_extend(ctx, p):
